@@ -20,7 +20,9 @@ Proof. reflexivity. Qed.
 (* The generic pipeline lemma.  [R o txt rest]: the text txt, followed by rest, is read by
    the operation rule as o.  What may follow is part of the relation because some arguments
    (regular expressions) end only where a look-ahead of the grammar says so. *)
-Section PipeCtx.
+Definition conv_kid (conv : ptree -> outcome op) (t : ptree) : outcome op := bind (unwrap_first (t_kids t)) conv.
+
+Section PipeGen.
   Variable r : peg rule.          (* the operation rule *)
   Variable wrap : rule.           (* its id *)
   Variable R : op -> str -> str -> Prop.
@@ -29,57 +31,79 @@ Section PipeCtx.
   Hypothesis Hop : forall o txt rest, R o txt rest ->
     exists k, run r false (txt ++ rest) = Some (txt, [Node (Some wrap) txt [k]], rest) /\ conv k = res o.
 
-  Definition conv_kid (t : ptree) : outcome op := bind (unwrap_first (t_kids t)) conv.
-  (* every item is readable in front of what actually follows it *)
-  Fixpoint chain (items : list item) (tail : str) : Prop :=
+    (* every item is readable in front of what actually follows it *)
+  Fixpoint chain_gen (items : list item) (tail : str) : Prop :=
     match items with
     | [] => True
-    | it :: more => R (fst it) (snd it) (pipe_tail_text (texts more) ++ 125 :: tail) /\ chain more tail
+    | it :: more => R (fst it) (snd it) (pipe_tail_text (texts more) ++ tail) /\ chain_gen more tail
     end.
 
-  Lemma star_pipe_ctx : forall items tail fuel, chain items tail ->
-    Nat.lt (length (pipe_tail_text (texts items) ++ 125 :: tail)) fuel ->
-    exists kids, star_loop (run (PSeq (PStr [124]) r) false) fuel (pipe_tail_text (texts items) ++ 125 :: tail)
-                 = Some (pipe_tail_text (texts items), kids, 125 :: tail)
-                 /\ mapM conv_kid kids = mapM res (ops_of items).
+  Lemma star_pipe_gen : forall items tail fuel, run (PSeq (PStr [124]) r) false tail = None -> chain_gen items tail ->
+    Nat.lt (length (pipe_tail_text (texts items) ++ tail)) fuel ->
+    exists kids, star_loop (run (PSeq (PStr [124]) r) false) fuel (pipe_tail_text (texts items) ++ tail)
+                 = Some (pipe_tail_text (texts items), kids, tail)
+                 /\ mapM (conv_kid conv) kids = mapM res (ops_of items).
   Proof.
-    induction items as [|[o txt] items IH]; intros tail fuel Hall Hlen.
+    induction items as [|[o txt] items IH]; intros tail fuel Hend Hall Hlen.
     - destruct fuel as [|fuel]; [cbn in Hlen; lia|]. exists []. split; [|reflexivity].
-      rewrite star_loop_S. reflexivity.
+      rewrite star_loop_S. cbn [texts map pipe_tail_text flat_map app]. rewrite Hend. reflexivity.
     - destruct Hall as [Ho Hos]. cbn [fst snd] in Ho.
       destruct fuel as [|fuel]; [lia|].
-      destruct (Hop o txt (pipe_tail_text (texts items) ++ 125 :: tail) Ho) as (k & Hk & Hck).
-      assert (Hlen' : Nat.lt (length (pipe_tail_text (texts items) ++ 125 :: tail)) fuel).
+      destruct (Hop o txt (pipe_tail_text (texts items) ++ tail) Ho) as (k & Hk & Hck).
+      assert (Hlen' : Nat.lt (length (pipe_tail_text (texts items) ++ tail)) fuel).
       { unfold texts, pipe_tail_text in *. cbn [map flat_map snd] in Hlen. rewrite <- app_assoc in Hlen. cbn [app length] in Hlen.
         rewrite app_length in Hlen. lia. }
-      destruct (IH tail fuel Hos Hlen') as (kids & Hs & Hm).
+      destruct (IH tail fuel Hend Hos Hlen') as (kids & Hs & Hm).
       exists (Node (Some wrap) txt [k] :: kids). split.
       + rewrite star_loop_S. rewrite run_seq.
-        change (pipe_tail_text (texts ((o, txt) :: items)) ++ 125 :: tail)
-          with (([124] ++ txt ++ pipe_tail_text (texts items)) ++ 125 :: tail).
+        change (pipe_tail_text (texts ((o, txt) :: items)) ++ tail)
+          with (([124] ++ txt ++ pipe_tail_text (texts items)) ++ tail).
         rewrite <- !app_assoc.
         rewrite run_str, seq_res_some, Hk. cbn beta iota.
-        assert (Hlt : Nat.ltb (length (pipe_tail_text (texts items) ++ 125 :: tail))
-                              (length ([124] ++ txt ++ pipe_tail_text (texts items) ++ 125 :: tail)) = true).
+        assert (Hlt : Nat.ltb (length (pipe_tail_text (texts items) ++ tail))
+                              (length ([124] ++ txt ++ pipe_tail_text (texts items) ++ tail)) = true).
         { apply Nat.ltb_lt. cbn [app length]. rewrite (app_length txt). lia. }
         rewrite Hlt, Hs. cbn [app]. rewrite <- ?app_assoc. reflexivity.
       + cbn [ops_of map fst mapM]. unfold conv_kid at 1. cbn [t_kids unwrap_first bind]. rewrite Hck. fold (ops_of items). rewrite Hm. reflexivity.
   Qed.
 
   (* head operation followed by ("|" operation)* *)
-  Lemma run_pipe_ctx (listid : rule) it items tail : chain (it :: items) tail ->
-    exists kids, run (PRule listid Normal (PSeq r (PStar (PSeq (PStr [124]) r)))) false (pipe_text (texts (it :: items)) ++ 125 :: tail)
-                 = Some (pipe_text (texts (it :: items)), [Node (Some listid) (pipe_text (texts (it :: items))) kids], 125 :: tail)
-                 /\ mapM conv_kid kids = mapM res (ops_of (it :: items)).
+  Lemma run_pipe_gen (listid : rule) it items tail : run (PSeq (PStr [124]) r) false tail = None -> chain_gen (it :: items) tail ->
+    exists kids, run (PRule listid Normal (PSeq r (PStar (PSeq (PStr [124]) r)))) false (pipe_text (texts (it :: items)) ++ tail)
+                 = Some (pipe_text (texts (it :: items)), [Node (Some listid) (pipe_text (texts (it :: items))) kids], tail)
+                 /\ mapM (conv_kid conv) kids = mapM res (ops_of (it :: items)).
   Proof.
-    intros Hall. destruct it as [o txt]. destruct Hall as [Ho Hos]. cbn [fst snd] in Ho.
+    intros Hend Hall. destruct it as [o txt]. destruct Hall as [Ho Hos]. cbn [fst snd] in Ho.
     cbn [texts map snd pipe_text]. fold (texts items). rewrite <- app_assoc.
-    destruct (Hop o txt (pipe_tail_text (texts items) ++ 125 :: tail) Ho) as (k & Hk & Hck).
-    destruct (star_pipe_ctx items tail (S (length (pipe_tail_text (texts items) ++ 125 :: tail))) Hos (Nat.lt_succ_diag_r _)) as (kids & Hs & Hm).
+    destruct (Hop o txt (pipe_tail_text (texts items) ++ tail) Ho) as (k & Hk & Hck).
+    destruct (star_pipe_gen items tail (S (length (pipe_tail_text (texts items) ++ tail))) Hend Hos (Nat.lt_succ_diag_r _)) as (kids & Hs & Hm).
     exists (Node (Some wrap) txt [k] :: kids). split.
     - rewrite run_rule_normal, run_seq, Hk, seq_res_some, run_star, Hs. reflexivity.
     - cbn [ops_of map fst mapM]. unfold conv_kid at 1. cbn [t_kids unwrap_first bind]. rewrite Hck. fold (ops_of items). rewrite Hm. reflexivity.
   Qed.
+End PipeGen.
+
+(* the usual case: the list is followed by the closing brace *)
+Section PipeCtx.
+  Variable r : peg rule.
+  Variable wrap : rule.
+  Variable R : op -> str -> str -> Prop.
+  Variable conv : ptree -> outcome op.
+  Variable res : op -> outcome op.
+  Hypothesis Hop : forall o txt rest, R o txt rest ->
+    exists k, run r false (txt ++ rest) = Some (txt, [Node (Some wrap) txt [k]], rest) /\ conv k = res o.
+
+  Definition chain (items : list item) (tail : str) : Prop := chain_gen R items (125 :: tail).
+
+  Lemma chain_cons it more tail :
+    chain (it :: more) tail <-> R (fst it) (snd it) (pipe_tail_text (texts more) ++ 125 :: tail) /\ chain more tail.
+  Proof. reflexivity. Qed.
+
+  Lemma run_pipe_ctx (listid : rule) it items tail : chain (it :: items) tail ->
+    exists kids, run (PRule listid Normal (PSeq r (PStar (PSeq (PStr [124]) r)))) false (pipe_text (texts (it :: items)) ++ 125 :: tail)
+                 = Some (pipe_text (texts (it :: items)), [Node (Some listid) (pipe_text (texts (it :: items))) kids], 125 :: tail)
+                 /\ mapM (conv_kid conv) kids = mapM res (ops_of (it :: items)).
+  Proof. intros H. exact (run_pipe_gen r wrap R conv res Hop listid it items (125 :: tail) eq_refl H). Qed.
 End PipeCtx.
 
 (* the instance for spellings that only need "|" or "}" after them *)
